@@ -21567,6 +21567,33 @@ impl<
 		L: Logger,
 	> ChannelManager<M, T, ES, NS, SP, F, R, MR, L>
 {
+	/// Verification hook (C01): runs `FundedChannel::verif_closing_probe` on a funded channel of this
+	/// manager with the manager's own (lower-bounded) fee estimator. Leaves the channel unchanged.
+	#[cfg(feature = "std")]
+	pub(crate) fn verif_closing_probe(
+		&self, counterparty_node_id: &PublicKey, channel_id: &ChannelId, value_to_self_msat: u64,
+		channel_value_satoshis: u64, holder_dust_limit_satoshis: u64, is_outbound: bool,
+		proposed_total_fee_satoshis: u64, skip_remote_output: bool,
+		target_closing_feerate_sats_per_kw: Option<u32>, feerate_per_kw: u32,
+		force_close_avoidance_max_fee_satoshis: u64,
+	) -> Option<(Result<(u64, u64, u64, Vec<u64>), String>, Result<(u64, u64), String>, u64)> {
+		let per_peer_state = self.per_peer_state.read().unwrap();
+		let mut peer_state = per_peer_state.get(counterparty_node_id)?.lock().unwrap();
+		let chan = peer_state.channel_by_id.get_mut(channel_id)?.as_funded_mut()?;
+		Some(chan.verif_closing_probe(
+			&self.fee_estimator,
+			value_to_self_msat,
+			channel_value_satoshis,
+			holder_dust_limit_satoshis,
+			is_outbound,
+			proposed_total_fee_satoshis,
+			skip_remote_output,
+			target_closing_feerate_sats_per_kw,
+			feerate_per_kw,
+			force_close_avoidance_max_fee_satoshis,
+		))
+	}
+
 	/// Canonical text (one line per item, hash-map order removed) of the payment / HTLC state a
 	/// `ChannelManager` persists outside of its channels: `claimable_payments` (per HTLC: value,
 	/// sender_intended_value, total, cltv_expiry, timer_ticks, skimmed fee, previous hop),
